@@ -125,7 +125,7 @@ func (c *C10) AfterRestart(w *World, r *RestartCtx) {
 		if w.lastRedo != nil && w.curBlock != nil {
 			a, b := w.curBlock, w.lastRedo
 			if a.BeginPanic != b.BeginPanic || !bytes.Equal(eventsBytes(a.BeginEvents), eventsBytes(b.BeginEvents)) {
-				w.Violate("R4", "redelivered-beginblock-differs", "after a %s crash, BeginBlock of height %d gives different events than before the crash", r.Kind, a.Height)
+				w.Violate("R4", "redelivered-beginblock-differs", "after a restart (%s), BeginBlock of height %d gives different events than before the crash", r.Kind, a.Height)
 				return
 			}
 			k := 0
@@ -137,7 +137,7 @@ func (c *C10) AfterRestart(w *World, r *RestartCtx) {
 					break
 				}
 				if d := sameResult(&a.Txs[j].Res, &b.Txs[k].Res); d != "" {
-					w.Violate("R4", "redelivered-tx-result-differs", "after a %s crash, re-delivered tx %d of height %d: %s", r.Kind, j, a.Height, d[3:])
+					w.Violate("R4", "redelivered-tx-result-differs", "after a restart (%s), re-delivered tx %d of height %d: %s", r.Kind, j, a.Height, d[3:])
 					return
 				}
 				k++
